@@ -165,7 +165,7 @@ static uint64_t p0_count(int thorough) {
 }
 static void p0_run(uint64_t idx, vh_rng_t * rng) {
     uint32_t hi = (uint32_t) idx << 16; uint32_t lo;
-    int full = vh_args.thorough;
+    int full = vh_args.thorough && (VH_FLAVOUR_DEFAULT || (idx & 31) == 7); /* all 2^32 values in the default flavour, every 32nd block plus the boundary blocks in the others */
     size_t i;
     vh_case_desc("32-bit sweep block hi=0x%04x", (unsigned) idx);
     if (!full) {
